@@ -20,7 +20,7 @@ EXHAUSTIVE_NOTE = G.EXHAUSTIVE_NOTE
 ASSUMPTIONS = G.ASSUMPTIONS
 TRUSTED = G.TRUSTED
 ALLOWED_AXIOMS = []
-LEVEL_TEXT = ('proof (partial): no_lost_wakeup, owner_can_finish, prompt, rescue_within_60, no_deadlock, ok_C05_sound proved for all event '
+LEVEL_TEXT = ('proof (partial): no_lost_wakeup, owner_can_finish, prompt, rescue_within_60, no_deadlock, retry_measure, ok_C05_sound + 4 converse theorems proved for all event '
               'lists accepted by the model Cache.step (invariants CacheInv.Inv + CacheLive.LInv); termination under fair '
               'scheduling is reduced to these and the last inference is left on paper; model tied to the code by '
               'differential correspondence, promptness / rescue / no-hang decided on every observed trace by ok_C05')
@@ -31,8 +31,9 @@ LEVEL_NOTE = ('Proved (closed under the global context): a waiter never waits fo
               'and a caller that then finds a dead computing loop takes the key over; while a call on a live loop is unfinished '
               'some non-life-cycle step is enabled.  NOT formalised: "a fair scheduler eventually takes a step that stays '
               'enabled" (so "enabled" becomes "eventually happens"), the property\'s assumption that each invocation ends or '
-              'is cancelled (IEnd is an environment event), retry_measure (no ghost retry counter; spinning of the real code is '
-              'caught by the step bound of the harness), and the converse of ok_C05_sound.  ok_C05_sound (CacheMon5.v): every '
+              'is cancelled (IEnd is an environment event).  retry_measure (CacheRetry.v, ghost counters computed along the run): '
+              'retries of a caller <= ended invocations + its proxy results + closed loops + its time-outs, time-outs * 61440 <= now.  Converse theorems ok_C05_implies_ends_with_End0 / '
+              '_shutdown_answers / _prompt / _rescue (CacheMon5Spec.v) read the property off an accepted trace alone.  ok_C05_sound (CacheMon5.v): every '
               'trace the model accepts satisfies the trace monitor (End 0, shutdown answers every started call, at every clock '
               'move every pending call on a running loop is served by an invocation in progress on a running loop or is within '
               '61440 ticks of the death of a loop that hosted its key).')
